@@ -43,12 +43,15 @@ ClientSameK == stage = "generated" => \A p \in Parts : client[p] \/ (p = "input_
                                                                       /\ src \in {"introspection", "introspection_descriptions"})
 
 \* ---- part 2: introspect_remote_schema ------------------------------------------------------------------------
-Responses == [url : {"ok", "invalid", "bad_scheme"}, status : {200, 201, 301, 404, 500}, body : {"nonjson", "array", "null", "no_data", "errors_only", "errors_and_data",
+Responses == [url : {"ok", "invalid", "bad_scheme"}, status : {200, 201, 301, 404, 500}, body : {"nonjson", "nonjson_empty", "nonjson_latin1", "nonjson_binary", "nonjson_truncated", "array", "null", "no_data", "errors_only", "errors_and_data",
                                                                                      "errors_empty_and_data", "data_null", "data_list", "data"}]
+\* bodies that are not JSON: markup, nothing at all, bytes that are not even UTF-8 (a Latin-1 page, a compressed payload
+\* without Content-Encoding), a document cut off in the middle
+NonJsonBodies == {"nonjson", "nonjson_empty", "nonjson_latin1", "nonjson_binary", "nonjson_truncated"}
 IntrospectOutcome(r) ==
   IF r.url # "ok" THEN "IntrospectionError"
   ELSE IF r.status < 200 \/ r.status > 299 THEN "IntrospectionError"
-  ELSE IF r.body = "nonjson" THEN "IntrospectionError"
+  ELSE IF r.body \in NonJsonBodies THEN "IntrospectionError"      \* whatever makes Response.json() fail (ValueError family)
   ELSE IF r.body \in {"array", "null", "no_data", "errors_only"} THEN "IntrospectionError"       \* not a dict / no "data"
   ELSE IF r.body = "errors_and_data" THEN "IntrospectionError"                                   \* errors reported
   ELSE IF r.body \in {"data_null", "data_list"} THEN "IntrospectionError"                        \* data is not a dict
